@@ -436,6 +436,7 @@ type diskFile struct {
 	Rsrc     []byte    // `.rsrc_<name>` (nil: no side file; empty non-nil: empty side file)
 	HasRsrc  bool
 	ModTime  time.Time
+	Dangling bool // an alias whose target is gone: no stat succeeds — empty data fork, zero dates, default TEXT/TTXT
 }
 
 var extTypes = map[string][2]string{
@@ -494,8 +495,18 @@ func (f *diskFile) effInfo() infoSpec {
 	if f.Info != nil {
 		return *f.Info
 	}
+	mt, ty, cr := f.statDerived()
+	return defaultInfoSpec([]byte(f.Name), mt, []byte(ty), []byte(cr))
+}
+
+// statDerived: the date and the type/creator codes the file wrapper derives from a successful Stat; when nothing
+// can be stat'ed (dangling alias) the date stays zero and the codes are the default file type's.
+func (f *diskFile) statDerived() ([]byte, string, string) {
+	if f.Dangling {
+		return make([]byte, 8), "TEXT", "TTXT"
+	}
 	ty, cr := typeCreator(f.Name)
-	return defaultInfoSpec([]byte(f.Name), hlTime(f.ModTime), []byte(ty), []byte(cr))
+	return hlTime(f.ModTime), ty, cr
 }
 
 func (f *diskFile) forkCount() int {
@@ -507,12 +518,12 @@ func (f *diskFile) forkCount() int {
 
 // oracleSpec renders the oracle's file spec: name size rsrc mtime type creator [0 | 1 + information fork].
 func (f *diskFile) oracleSpec() string {
-	ty, cr := typeCreator(f.Name)
+	mt, ty, cr := f.statDerived()
 	rs := "-"
 	if f.HasRsrc {
 		rs = fmt.Sprint(len(f.Rsrc))
 	}
-	s := fmt.Sprintf("%s %d %s %s %s %s", hx([]byte(f.Name)), len(f.Data), rs, hx(hlTime(f.ModTime)), hx([]byte(ty)), hx([]byte(cr)))
+	s := fmt.Sprintf("%s %d %s %s %s %s", hx([]byte(f.Name)), len(f.Data), rs, hx(mt), hx([]byte(ty)), hx([]byte(cr)))
 	if f.Info != nil {
 		return s + " 1 " + f.Info.oracleArgs()
 	}
